@@ -253,6 +253,13 @@ def run(ctx):
                 delta = rng.choice([0, 4, 0x200])
             copier = rng.random() < 0.4
             src = f"*=0x008000\n.db 1,2,3\n.include_ips 'top.ips', {delta if delta >= 0 else '-' + str(-delta)}\n.db 4\n"
+            if i % 4 == 1 and delta >= 0:
+                # the delta names a constant that is assigned again after the directive (and, every other time, shadowed
+                # later in the enclosing block): the directive uses the value in force where it stands
+                if i % 8 == 1:
+                    src = f"*=0x008000\ndz_zq := {delta}\n.db 1,2,3\n.include_ips 'top.ips', dz_zq\ndz_zq := {delta + 0x40}\n.db 4\n"
+                else:
+                    src = f"*=0x008000\ndz_zq := {delta}\n{{\n.db 1,2,3\n.include_ips 'top.ips', dz_zq\ndz_zq := {delta + 0x80}\n.db 4\n}}\n"
             f = io.BytesIO()
             old_cwd = os.getcwd()
             os.chdir(tmp)
